@@ -132,6 +132,8 @@ pub fn run(args: &[String]) {
                                          1 => vec![("K".to_string(), 0, 300)],
                                          2 => if i % 10 == 2 { vec![("Cl".to_string(), 0, 2)] } else { vec![("C".to_string(), 0, 2)] },
                                          // far beyond the stated domain's size: the monoisotopic probability itself is below f64's range
+                                         // a few hundred kDa: variants beyond neutron excess 300 still carry more than 2e-10 of the signal
+                                         4 if i == 19 => vec![("C".to_string(), 0, 15000), ("H".to_string(), 0, 30000), ("O".to_string(), 0, 15000)],
                                          4 if i % 10 == 9 => match (i / 10) % 3 { 0 => vec![("C".to_string(), 0, 70000)],
                                                                                   1 => vec![("K".to_string(), 0, 11000), ("O".to_string(), 0, 3)],
                                                                                   _ => vec![("C".to_string(), 0, 100000), ("H".to_string(), 0, 150000), ("O".to_string(), 0, 30000)] },
@@ -146,7 +148,7 @@ pub fn run(args: &[String]) {
                     _ => vec![Req::F32(0.0), Req::F32(1.0), Req::F32(rng.below(101) as f32 / 100.0), Req::F32(0.9999), Req::F32(0.5)],
                 };
                 // (huge compositions: short fixed requests only -- the exact oracle's cost grows with order^2)
-                let reqs = if i % 10 == 9 { vec![Req::I32(1), Req::I32(2), Req::I32(6), Req::Usize(12), Req::Opt(Some(3))] } else { reqs };
+                let reqs = if i == 19 { vec![Req::I32(301), Req::I32(302), Req::I32(320)] } else if i % 10 == 9 { vec![Req::I32(1), Req::I32(2), Req::I32(6), Req::Usize(12), Req::Opt(Some(3))] } else { reqs };
                 // a second generator object, fresh for every composition: it sees exactly this composition's request sequence
                 let mut per_comp = BafflingRecursiveIsotopicPatternGenerator::new();
                 for r in reqs {
@@ -204,6 +206,9 @@ pub fn run(args: &[String]) {
                 (vec![("C".into(), 0, 60), ("H".into(), 0, 90), ("O".into(), 0, 30)], Req::I32(0), -6, 22.989218),
                 (vec![("C".into(), 0, 10), ("H".into(), 0, 16), ("N".into(), 0, 5), ("O".into(), 0, 13), ("P".into(), 0, 3)], Req::F32(0.99), 7, 22.989218),
             ];
+            // the reusable generator object is an entry point of the coarse generator too: one instance lives through the run and is asked,
+            // back to back, for the same (composition, request, charge) with two different carriers, then for the neutral pattern
+            let mut long_lived = BafflingRecursiveIsotopicPatternGenerator::new();
             for id in 0..n {
                 let fixed = edge.get(id).cloned();
                 let mut ents = gen_comp(&mut rng, &faithful, 4, 300);
@@ -216,6 +221,16 @@ pub fn run(args: &[String]) {
                 let c = build(&ents, false);
                 let neutral = guarded(|| isotopic_variants(c.clone(), req.spec(), 0, carrier));
                 rec["neutral"] = match neutral { Ok(p) => peaks_json(&p), Err(_) => json!("panic") };
+                {
+                    let carrier2 = carriers[(carriers.iter().position(|x| *x == carrier).unwrap_or(0) + 1 + id % 3) % 4];
+                    let mut call = |z: i32, cr: f64| { let cc = c.clone(); let sp = req.spec();
+                        match guarded(|| long_lived.isotopic_variants(cc, sp, z, cr)) { Ok(p) => peaks_json(&p), Err(_) => json!("panic") } };
+                    let first = call(charge, carrier);
+                    let second = call(charge, carrier2);
+                    let gneutral = call(0, carrier);
+                    if first == json!("panic") || second == json!("panic") || gneutral == json!("panic") { long_lived = BafflingRecursiveIsotopicPatternGenerator::new(); }
+                    rec["gen2"] = json!({"carrier2": hexf(carrier2), "first": first, "second": second, "neutral": gneutral});
+                }
                 println!("{}", rec);
             }
         }
